@@ -17,7 +17,7 @@ def soup_jobs(ctx, mode, plan, framed=False, tolerate=()):
             continue
         alpha = [w for _t, w in r["value"]]
         sizes[lang] = (n, alpha)
-        T = (240 if ctx.quick() else 1500)
+        T = (240 if ctx.quick() else 600)
         for k in range(len(alpha)):
             frame = None
             if framed:
@@ -37,7 +37,7 @@ def mutation_jobs(ctx, labels=None, tolerate=()):
     from vlib import skel
     jobs = []
     n = 0
-    T = 240 if ctx.quick() else 900
+    T = 240 if ctx.quick() else 600
     for lang in skel.LANGS:
         have = dict(skel.programs(lang, "quick"))
         for label in (labels or (MUT_LABELS[:5] if ctx.quick() else MUT_LABELS)):
